@@ -95,6 +95,7 @@ _ECHO_ARGS = {
     "l": _a("[Int!]"),
     "o": _a("In"),
     "r": _a("Int!", "3"),
+    "q": _a("Req"),
 }
 SCHEMA_C = {
     "name": "C",
@@ -130,6 +131,7 @@ SCHEMA_C = {
             "kind": "input",
             "fields": {"a": {"type": "Int", "default": None}, "b": {"type": "[String!]", "default": None}, "c": {"type": "In2", "default": None}},
         },
+        "Req": {"kind": "input", "fields": {"must": {"type": "Int!", "default": None}, "opt": {"type": "Int", "default": None}}},
         "In2": {"kind": "input", "fields": {"a": {"type": "Int", "default": None}, "b": {"type": "[String!]", "default": None}}},
         "Date": {"kind": "scalar"},
     },
@@ -206,7 +208,9 @@ def is_input(sm, name):
 
 def possible_types(sm, name):
     """object type names that a value of composite type `name` can have (document order)."""
-    t = sm["types"][name]
+    t = sm["types"].get(name)
+    if t is None or t["kind"] not in ("object", "interface", "union"):
+        return []
     if t["kind"] == "object":
         return [name]
     if t["kind"] == "union":
@@ -220,7 +224,9 @@ def overlap(sm, a, b):
 
 
 def fields_of(sm, name):
-    t = sm["types"][name]
+    t = sm["types"].get(name)
+    if t is None:
+        return {}
     return t.get("fields", {}) if t["kind"] in ("object", "interface") else {}
 
 
